@@ -153,6 +153,14 @@ def obligations(tier, seed):
             bwd = lit + [("org", "H4"), ("ins", "TGT", "NOP", ""), ("gap", "n", GAP), ("ins", "SRC", m, opnd)]
             obs.append(make("pcr-fwd:%s:%s" % (m, name), fwd, [(1, "TGT", kname, sign)]))
             obs.append(make("pcr-bwd:%s:%s" % (m, name), bwd, [(3, "TGT", kname, sign)]))
+        # the constant reached through an EQU symbol, negative or positive (label+SYM / label-SYM)
+        for name, opnd, sign in [("pcr+sym", "TGT+KS,PCR", 1), ("pcr-sym", "TGT-KS,PCR", -1), ("[pcr+sym]", "[TGT+KS,PCR]", 1)]:
+            for cls in (["N3"] if not full else ["N3", "D3"]):
+                pre = [("lit", "k", cls), ("ins", "KS", "EQU", "{k}")]
+                fwd = pre + [("org", "H4"), ("ins", "SRC", m, opnd), ("gap", "n", GAP), ("ins", "TGT", "NOP", "")]
+                bwd = pre + [("org", "H4"), ("ins", "TGT", "NOP", ""), ("gap", "n", GAP), ("ins", "SRC", m, opnd)]
+                obs.append(make("pcr-fwd:%s:%s:%s" % (m, name, cls), fwd, [(2, "TGT", "k", sign)]))
+                obs.append(make("pcr-bwd:%s:%s:%s" % (m, name, cls), bwd, [(4, "TGT", "k", sign)]))
     # several PCR statements whose sizes depend on each other
     G = 300 if not full else 40000
     multi = {
